@@ -140,6 +140,11 @@ def judge_entry(case):
     # step 0 of the ideal process models
     cond = U.Conditions(membrane_area=0.05, initial_feed_temperature=t, initial_feed_amount=50.0, initial_feed_composition=comp,
                         permeate_temperature=kw.get("permeate_temperature"), permeate_pressure=kw.get("permeate_pressure"))
+    # ... the same Conditions object is first handed to a model of ANOTHER mixture (it must come back untouched)
+    omix = U.get_mixture("H2O_iPOH" if mix.name != "H2O_iPOH" else "MeOH_DMC")
+    opv = mkpv(U.make_membrane(omix, case["P"][0], case["P"][1], t_ref=t, ea1=25000.0, ea2=60000.0), omix)
+    core.call(opv.ideal_isothermal_process, number_of_steps=1, delta_hours=0.1, conditions=cond, precision=prec, calculation_type="NRTL")
+    core.call(opv.ideal_non_isothermal_process, number_of_steps=1, delta_hours=0.1, conditions=cond, precision=prec, calculation_type="NRTL")
     for name, f in (("ideal_iso", pv.ideal_isothermal_process), ("ideal_noniso", pv.ideal_non_isothermal_process)):
         st, pm = core.call(f, number_of_steps=1, delta_hours=0.1, conditions=cond, precision=prec, calculation_type=model)
         if st != "ok":
